@@ -148,6 +148,25 @@ CHECKS = {
             "forward must-alias data-flow analysis over the CFG + contradiction rule on map accesses + structural invariants", "4/C20"),
 }
 
+# sentences appended to the claimed text (rules added in round 13)
+COMMON = (" Holds under python -O as well: no assert statement in the functions the property is anchored in carries "
+          "an effect (shared rule Rnn.R20, rules/robust.py).")
+EXTRA = {
+    'C01': " A layer value is never tested for truthiness (layers are user objects; rules/robust.py).",
+    'C02': " The layer-failure recorder appends on every normal exit, also when a handler inside it swallows a reporting problem (CFG with every call fallible).",
+    'C03': " walk_with_symlinks walks every symlinked sub-directory left after the caller's in-place pruning of the yielded list (no snapshot taken before the yield; shared with C14.R4).",
+    'C04': " No isinstance / issubclass test classifies an exception value by the class Exception (SystemExit is BaseException only); at every call resolved inside the package a positional argument that is a plain name equal to a parameter name of the callee is bound to that parameter (unanimous belief rule); the recorder appends on every normal exit with every call fallible.",
+    'C05': " In startTest and in the branch of addSkip that stands in for it, no formatter call and no call into the test object is reachable before self.testSetUp() (the drivers run stopTest once startTest was entered).",
+    'C07': " The writer's sanitiser may be a constant regular expression (context-free pattern that matches each line-break character alone and never the empty string); a reader that splits decoded text splits at all ten str.splitlines characters.",
+    'C10': " A layer value is never tested for truthiness (layers are user objects; rules/robust.py).",
+    'C13': " Outside the parser options.buffer is only ever stored with the constant True: --buffer survives every other option.",
+    'C14': " The directories examined for links after the yield are the yielded list as the caller left it (reaching definitions / dominators).",
+    'C15': " The directories examined for links after the yield are the yielded list as the caller left it (shared with C14.R4).",
+    'C16': " A layer failure is recorded on every normal exit of the recorder (shared with C04.R3), so the layer loop sees it.",
+    'C18': " Every reference to a trace / profile API of sys / threading is one of the tabulated per-thread / later-threads setters and getters (an ..._all_threads API also replaces the current thread's function behind the restored value).",
+    'C19': " A selection from the thread enumeration kept as the per-test snapshot is reported (the snapshot is the complete enumeration).",
+}
+
 REASON_NOT_BUILT = "static check for this property is not built yet in this round (see DESIGN.md section 4 for the planned rules)"
 
 
@@ -164,6 +183,7 @@ def main():
             na.append({'property_id': pid, 'reason': c})
             continue
         text, tech, ref = c
+        text = text + EXTRA.get(pid, '') + COMMON
         checks.append({
             'property_id': pid,
             'quick_cmd': 'python3-vt check %s --tier quick' % pid,
